@@ -15,6 +15,20 @@ CHECKS = {
              "assumed within 1e-12 relative (checked on every sampled case, not proved).",
         technique="Lean 4 proof over translator-generated tables + differential correspondence",
         design="§6 C06"),
+    "C17": dict(
+        text="Lean theorems: point accessor = flat index sample*nspecies*ncells + species*ncells + cell (generated formula); "
+             "per-sample state, per-cell trajectory, whole-state block and merged trajectory of the model (numpy C-order reshape as "
+             "stated model) read the same element / block / sum, with the data's units; species by label / index / object and "
+             "cells by index / coordinates resolve to the same entry; the three sample-index lookups (guards, loop tests and "
+             "returned indices regenerated from rdoutput.py) meet their declarative specs for every non-decreasing time list "
+             "and every query (None exactly when no such sample exists; ties to the earlier for strictly increasing times), "
+             "and comparisons in any time unit are comparisons of SI values. Tie: translator IndexPy/TrajPy + correspondence "
+             "(op traj on directly constructed and simulated trajectories, grid and graph) + brute-force oracle on the real code.",
+        note="Lean kernel + {propext, Classical.choice, Quot.sound}; translator; numpy reshape/negative-index semantics are a "
+             "stated model; for repeated sample times closest/supeq return a later sample of equal time (known finding; "
+             "time-wise partial theorems proved instead).",
+        technique="Lean 4 proof over translator-generated formulas + differential correspondence",
+        design="§6 C17"),
 }
 
 ALL = ["C%02d" % i for i in range(1, 21)]
